@@ -6,6 +6,8 @@ package procsim
 
 import (
 	"bytes"
+	"encoding/base64"
+	"encoding/json"
 	"fmt"
 	"os"
 	"os/exec"
@@ -14,8 +16,11 @@ import (
 	"sort"
 	"strconv"
 	"strings"
+	"sync"
+	"sync/atomic"
 	"syscall"
 	"time"
+	"unicode/utf8"
 
 	"verif/internal/gen"
 	"wire"
@@ -32,6 +37,48 @@ type File struct {
 	EscDollar bool `json:"escaped_dollars,omitempty"`
 	// CRLF: lines end in "\r\n" (a file written on another platform)
 	CRLF bool `json:"crlf_line_endings,omitempty"`
+	// Fifo: a named pipe instead of a regular file; the content is fed to
+	// every reader that opens it while an invocation runs (Invocation.Fifos)
+	Fifo bool `json:"named_pipe,omitempty"`
+}
+
+// fileJSON is File on the wire: content that is not valid UTF-8 (torn
+// multi-byte characters, other encodings, random bytes) travels as base64 so
+// that a replay file reproduces the very bytes.
+type fileJSON struct {
+	Path      string      `json:"path"`
+	Docs      []wire.Tree `json:"docs,omitempty"`
+	Raw       *string     `json:"raw,omitempty"`
+	RawB64    *string     `json:"raw_base64,omitempty"`
+	EscDollar bool        `json:"escaped_dollars,omitempty"`
+	CRLF      bool        `json:"crlf_line_endings,omitempty"`
+	Fifo      bool        `json:"named_pipe,omitempty"`
+}
+
+func (f File) MarshalJSON() ([]byte, error) {
+	j := fileJSON{Path: f.Path, Docs: f.Docs, Raw: f.Raw, EscDollar: f.EscDollar, CRLF: f.CRLF, Fifo: f.Fifo}
+	if f.Raw != nil && !utf8.ValidString(*f.Raw) {
+		b := base64.StdEncoding.EncodeToString([]byte(*f.Raw))
+		j.Raw, j.RawB64 = nil, &b
+	}
+	return json.Marshal(j)
+}
+
+func (f *File) UnmarshalJSON(data []byte) error {
+	var j fileJSON
+	if err := json.Unmarshal(data, &j); err != nil {
+		return err
+	}
+	*f = File{Path: j.Path, Docs: j.Docs, Raw: j.Raw, EscDollar: j.EscDollar, CRLF: j.CRLF, Fifo: j.Fifo}
+	if j.RawB64 != nil {
+		b, err := base64.StdEncoding.DecodeString(*j.RawB64)
+		if err != nil {
+			return err
+		}
+		s := string(b)
+		f.Raw = &s
+	}
+	return nil
 }
 
 // Link is a symlink.
@@ -74,7 +121,7 @@ func (f *File) Bytes() (string, bool) {
 func (w *World) Clone() *World {
 	n := &World{Dirs: append([]string{}, w.Dirs...), Links: append([]Link{}, w.Links...)}
 	for _, f := range w.Files {
-		nf := File{Path: f.Path, EscDollar: f.EscDollar, CRLF: f.CRLF}
+		nf := File{Path: f.Path, EscDollar: f.EscDollar, CRLF: f.CRLF, Fifo: f.Fifo}
 		if f.Raw != nil {
 			s := *f.Raw
 			nf.Raw = &s
@@ -98,12 +145,18 @@ func (w *World) File(path string) *File {
 }
 
 // Materialise creates the world under root (which must not exist or be empty).
+// Real turns the placeholder for a byte that is not valid UTF-8 into that
+// byte: file names are byte strings (a directory created under a Latin-1
+// locale), but case descriptions and replay files are JSON. "@E9@" stands for
+// the single byte 0xE9.
+func Real(p string) string { return strings.ReplaceAll(p, "@E9@", "\xe9") }
+
 func (w *World) Materialise(root string) error {
 	if err := os.MkdirAll(root, 0o755); err != nil {
 		return err
 	}
 	for _, d := range w.Dirs {
-		if err := os.MkdirAll(filepath.Join(root, d), 0o755); err != nil {
+		if err := os.MkdirAll(filepath.Join(root, Real(d)), 0o755); err != nil {
 			return err
 		}
 	}
@@ -113,20 +166,27 @@ func (w *World) Materialise(root string) error {
 		if !ok {
 			return fmt.Errorf("world: %s cannot be represented in its format", f.Path)
 		}
-		p := filepath.Join(root, f.Path)
+		p := filepath.Join(root, Real(f.Path))
 		if err := os.MkdirAll(filepath.Dir(p), 0o755); err != nil {
 			return err
+		}
+		if f.Fifo {
+			_ = os.Remove(p)
+			if err := syscall.Mkfifo(p, 0o644); err != nil {
+				return err
+			}
+			continue
 		}
 		if err := os.WriteFile(p, []byte(b), 0o644); err != nil {
 			return err
 		}
 	}
 	for _, l := range w.Links {
-		p := filepath.Join(root, l.Path)
+		p := filepath.Join(root, Real(l.Path))
 		if err := os.MkdirAll(filepath.Dir(p), 0o755); err != nil {
 			return err
 		}
-		if err := os.Symlink(l.Target, p); err != nil {
+		if err := os.Symlink(Real(l.Target), p); err != nil {
 			return err
 		}
 	}
@@ -139,6 +199,12 @@ type Inject struct {
 	Path    string `json:"path"`    // world-relative path the fault is keyed to (strace -P)
 	Errno   string `json:"errno"`   // EIO | EACCES | EMFILE | ENOSPC
 	When    string `json:"when,omitempty"`
+}
+
+// FifoFeed is the content served on one named pipe.
+type FifoFeed struct {
+	Path    string `json:"path"` // world-relative
+	Content string `json:"content"`
 }
 
 // Invocation is one run of a tool in a world.
@@ -158,6 +224,9 @@ type Invocation struct {
 	// sees short reads, as with a slow producer
 	StdinBursts []int       `json:"stdin_bursts,omitempty"`
 	Sched       *wire.Sched `json:"schedule,omitempty"`
+	// Fifos: named pipes of the world and what a reader gets from them: a
+	// feeder serves every open for reading while the invocation runs
+	Fifos []FifoFeed `json:"named_pipes,omitempty"`
 	// StdoutTo: "" = pipe, otherwise an absolute path opened for writing (/dev/full)
 	StdoutTo string   `json:"stdout_to,omitempty"`
 	Injects  []Inject `json:"inject,omitempty"`
@@ -166,6 +235,40 @@ type Invocation struct {
 	CPUSeconds int   `json:"cpu_seconds,omitempty"`
 	ASBytes    int64 `json:"as_bytes,omitempty"`
 	StepBudget int64 `json:"step_budget,omitempty"`
+}
+
+type invJSON Invocation
+
+// (stdin that is not valid UTF-8 travels as base64, like file content)
+func (i Invocation) MarshalJSON() ([]byte, error) {
+	a := struct {
+		invJSON
+		StdinB64 *string `json:"stdin_base64,omitempty"`
+	}{invJSON: invJSON(i)}
+	if !utf8.ValidString(i.Stdin) {
+		b := base64.StdEncoding.EncodeToString([]byte(i.Stdin))
+		a.StdinB64, a.Stdin = &b, ""
+	}
+	return json.Marshal(a)
+}
+
+func (i *Invocation) UnmarshalJSON(data []byte) error {
+	var a struct {
+		invJSON
+		StdinB64 *string `json:"stdin_base64,omitempty"`
+	}
+	if err := json.Unmarshal(data, &a); err != nil {
+		return err
+	}
+	*i = Invocation(a.invJSON)
+	if a.StdinB64 != nil {
+		b, err := base64.StdEncoding.DecodeString(*a.StdinB64)
+		if err != nil {
+			return err
+		}
+		i.Stdin = string(b)
+	}
+	return nil
 }
 
 // Outcome is what a run produced.
@@ -224,7 +327,7 @@ func Run(root string, inv *Invocation) (*Outcome, error) {
 	if as <= 0 {
 		as = defaultAS
 	}
-	cwd := filepath.Join(root, inv.Cwd)
+	cwd := filepath.Join(root, Real(inv.Cwd))
 	env := []string{"PATH=" + filepath.Join(root, "bin") + ":/usr/bin:/bin", "HOME=" + root, "LANG=C", "TMPDIR=" + filepath.Join(root, "tmp"), "GOTRACEBACK=single"}
 	keys := make([]string, 0, len(inv.Env))
 	for k := range inv.Env {
@@ -282,7 +385,7 @@ func Run(root string, inv *Invocation) (*Outcome, error) {
 			args = append(args, "-e", "trace="+strings.Join(names, ","))
 		}
 		for _, in := range inv.Injects {
-			p := in.Path
+			p := Real(in.Path)
 			if !filepath.IsAbs(p) {
 				p = filepath.Join(root, p)
 			}
@@ -316,7 +419,9 @@ func Run(root string, inv *Invocation) (*Outcome, error) {
 	} else {
 		full = append(full, inv.Binary)
 	}
-	full = append(full, inv.Args...)
+	for _, a := range inv.Args {
+		full = append(full, Real(a))
+	}
 	cmd = exec.Command(full[0], full[1:]...)
 	cmd.Dir = cwd
 	cmd.Env = env
@@ -368,6 +473,51 @@ func Run(root string, inv *Invocation) (*Outcome, error) {
 			_, _ = burstW.Write(rest)
 		}()
 	}
+	var stopFeed atomic.Bool
+	var feedWG sync.WaitGroup
+	for _, ff := range inv.Fifos {
+		fp := filepath.Join(root, Real(ff.Path))
+		feedWG.Add(1)
+		go func(fp, content string) {
+			defer feedWG.Done()
+			for !stopFeed.Load() {
+				// (a fault may have replaced the pipe by something else)
+				if fi, err := os.Lstat(fp); err != nil || fi.Mode()&os.ModeNamedPipe == 0 {
+					return
+				}
+				// blocks until some process opens the pipe for reading
+				w, err := os.OpenFile(fp, os.O_WRONLY, 0)
+				if err != nil {
+					return
+				}
+				if !stopFeed.Load() {
+					_, _ = w.WriteString(content)
+				}
+				w.Close()
+				// the reader must see EOF before the pipe is opened again:
+				// wait until nobody has it open for reading any more
+				for k := 0; k < 5000 && !stopFeed.Load(); k++ {
+					time.Sleep(time.Millisecond)
+					nb, err := os.OpenFile(fp, os.O_WRONLY|syscall.O_NONBLOCK, 0)
+					if err != nil {
+						break // ENXIO: no reader left (or the pipe is gone)
+					}
+					nb.Close()
+				}
+			}
+		}(fp, ff.Content)
+	}
+	defer func() {
+		// release the feeders: a non-blocking reader lets a pending open return
+		stopFeed.Store(true)
+		for _, ff := range inv.Fifos {
+			if r, err := os.OpenFile(filepath.Join(root, Real(ff.Path)), os.O_RDONLY|syscall.O_NONBLOCK, 0); err == nil {
+				time.Sleep(time.Millisecond)
+				r.Close()
+			}
+		}
+		feedWG.Wait()
+	}()
 	done := make(chan error, 1)
 	go func() { done <- cmd.Wait() }()
 	// wall-clock watchdog far above the CPU limit: only catches a process
